@@ -448,6 +448,10 @@ def judge_common(tag, expect, icls, iv, sacc, scls, xs, lang):
     if xs == "1":
         if not same_class(icls, scls):
             return "error class differs from the specification's classification (C15): expected " + scls
+    elif xs == "u":
+        # not valid UTF-8: NFKD is not defined there and the library contract claims nothing about what the library
+        # computes (only that it cannot turn such a string into a valid sentence: acceptance was judged above)
+        return None
     else:
         if scls == "wordlen" and icls != "wordlen":
             return "wrong word count must give ErrWordLen (C15)"
@@ -599,6 +603,8 @@ def run_Q(res, histories, judge_op):
                 if r != want:
                     if xs == "xs=0":
                         res.known["id=F3-xtext-stream-safe class=not-xsafe MnemonicToSeed differs from PBKDF2 over true NFKD when an argument's NFKD form has a run of more than 30 modifiers (stream-safe NFKD of golang.org/x/text)"] = op
+                    elif xs == "xs=u":
+                        pass    # an argument is not valid UTF-8: outside the property and outside the library contract
                     else:
                         bad = (k, op, r, "MnemonicToSeed differs from the specification's seed inside a history (expected %s...)" % want[:30])
                         break
@@ -1148,6 +1154,9 @@ def C10(tier, seed, st):
         if na != nb:
             res.count("pair-not-equivalent")
             continue
+        if kn[2 * k].endswith("xs=u") or kn[2 * k + 1].endswith("xs=u"):
+            res.count("pair-invalid-utf8")
+            continue
         xs = kn[2 * k].endswith("xs=1")
         sacc = " class=nil " in spec[2 * k] and spec[2 * k].startswith("accept")
         why = None
@@ -1461,6 +1470,10 @@ def C14(tier, seed, st):
             continue
         a = i.rsplit(" reads=", 1)[0] if f[0] == "N" else strip_impl_E(i)
         if f[0] == "C":
+            try:
+                unhx(f[2]).decode("utf-8")
+            except UnicodeDecodeError:
+                continue    # not valid UTF-8: the library contract says nothing about the tokens the library produces
             # outside xsafe only the verdict is comparable; cheap test: compare classes by kind
             ka, km = kind(parse_C(a)[0]), kind(parse_C(m)[0])
             ka = "unknown" if ka == "other" else ka     # a non-sentinel error in a wording the harness does not parse
@@ -1622,8 +1635,14 @@ def k_strings(rng, tier):
     for _ in range(40 if q else 1000):
         b = bytearray(rng.choice(bs))
         for _ in range(rng.randrange(1, 4)):
-            b.insert(rng.randrange(len(b) + 1), rng.choice([0xFF, 0xC0, 0x80, 0xED, 0xA0, 0xF5, 0xE3, 0xCC]))
+            b.insert(rng.randrange(len(b) + 1), rng.choice([0xFF, 0xC0, 0x80, 0xED, 0xA0, 0xF5, 0xE3, 0xCC, 0xF6, 0xF7, 0xF8, 0xFC, 0xFE, 0xC1, 0xE0, 0xF0, 0xF4]))
         bs.append(bytes(b))
+    # a stray lead / continuation byte directly in front of a character that decomposes (x/text leaves some of these
+    # characters as they are; the contract claims nothing about the result except that it is not valid UTF-8)
+    for lead in (0xF5, 0xF8, 0xFC, 0xFF, 0xC0, 0xC1, 0xE0, 0xED, 0xF0, 0xF4, 0x80, 0xBF):
+        for ch in ("\u017d", "\u00a0", "\u3000", "\u00e9", "\uac00", "\ufb01", "a"):
+            bs.append(bytes([lead]) + ch.encode())
+            bs.append(b"x " + bytes([lead]) + ch.encode() + b" y")
     # list words and sentences
     for lang in LANGS:
         t = gens.table(lang)
@@ -1639,7 +1658,7 @@ def k_strings(rng, tier):
 
 
 def check_K(res, rng, tier):
-    """re-validates the contract LC1-LC3 that the theorems assume of norm.NFKD.String, against the Gallina NFKD"""
+    """re-validates the contract LC1-LC4 that the theorems assume of norm.NFKD.String, against the Gallina NFKD"""
     bs = k_strings(rng, tier)
     lines = ["K " + hx(b) for b in bs]
     impl = common.run_impl(lines)
@@ -1649,6 +1668,17 @@ def check_K(res, rng, tier):
         res.evaluations += 1
         nf, _, xs = sp.rpartition(" xs=")
         ib, nb = unhx(i), unhx(nf)
+        if xs == "u":
+            # not valid UTF-8: the contract only says that the output is not valid UTF-8 either (LC4)
+            res.count("K/invalid-utf8")
+            try:
+                ib.decode("utf-8")
+                res.corr_break(stream="K", case=ln, impl=i, model=sp, why="library contract LC4: norm.NFKD.String turned a string that is not valid UTF-8 into valid UTF-8")
+            except UnicodeDecodeError:
+                pass
+            if ib != b:
+                res.nontrivial.add(ln)
+            continue
         if xs == "1":
             res.count("K/xsafe")
             if ib != nb:
@@ -1779,7 +1809,7 @@ def run_S(res, pairs, pid):
         want = "seed " + pbk(pw, salt)
         got = i.replace(" NOT-FRESH", "")
         seeds.append((got, xs))
-        res.count("S/xsafe" if xs == "xs=1" else "S/not-xsafe")
+        res.count({"xs=1": "S/xsafe", "xs=u": "S/invalid-utf8"}.get(xs, "S/not-xsafe"))
         res.nontrivial.add(ln)
         if "NOT-FRESH" in i:
             res.violation(stream="S", case=ln, impl=i, model=md, spec=want, why="MnemonicToSeed returned a slice that is not fresh: mutating it changed a later result")
@@ -1788,6 +1818,8 @@ def run_S(res, pairs, pid):
         elif got != want:
             if xs == "xs=0":
                 res.known["id=F3-xtext-stream-safe class=not-xsafe MnemonicToSeed differs from PBKDF2 over true NFKD when an argument's NFKD form has a run of more than 30 modifiers (stream-safe NFKD of golang.org/x/text)"] = ln
+            elif xs == "xs=u":
+                res.count("S/invalid-utf8-differs")   # outside the property (valid UTF-8 only) and outside the library contract
             else:
                 res.violation(stream="S", case=ln, impl=i, model=md, spec=want,
                               why="MnemonicToSeed differs from PBKDF2-HMAC-SHA512(NFKD(m), \"mnemonic\"+NFKD(p), 2048, 64)")
@@ -1922,7 +1954,9 @@ def C11(tier, seed, st):
         ia, ib = impl[2 * k].replace(" NOT-FRESH", ""), impl[2 * k + 1].replace(" NOT-FRESH", "")
         want = "seed " + pbk(unhx(sa[1]), unhx(sa[2]))
         if ia != ib or ia != want:
-            if sa[5] == "xs=0" or sb[5] == "xs=0":
+            if "xs=u" in (sa[5], sb[5]):
+                res.count("pair-invalid-utf8")
+            elif sa[5] == "xs=0" or sb[5] == "xs=0":
                 res.known["id=F3-xtext-stream-safe class=not-xsafe two spellings with equal NFKD forms give different seeds when the NFKD form has a run of more than 30 modifiers (stream-safe NFKD of golang.org/x/text)"] = lines[2 * k]
             else:
                 res.violation(stream="S", case=lines[2 * k + 1], other_case=lines[2 * k], impl=ib, impl_other=ia, model="", spec=want, tag=tag,
